@@ -12,9 +12,17 @@ import time
 SPEC_DIR = os.path.join(os.path.dirname(os.path.dirname(os.path.abspath(__file__))), "spec")
 OBLIGATIONS = (("Init => IndInv", ["--init=Init", "--inv=IndInv", "--length=0"]),
                ("IndInv /\\ Next => IndInv'", ["--init=IndInit", "--inv=IndInv", "--length=1"]))
+# spec/C01Core.tla: the index <-> point maps of a 1-d integer lattice with ANY corner, cell size and cell count; every clause is
+# an invariant of the (arbitrary) initial states
+C01_OBLIGATIONS = tuple((inv, ["--init=Init", f"--inv={inv}", "--length=0"]) for inv in
+                        ("C01_IndexPointInverse", "C01_PointInOwnCell", "C01_CellsTileOnce", "C01_CentresIncrease", "C01_OutsideInNoCell"))
+C01_CLAIM = ("Apalache: on the 1-d integer lattice (spec/C01Core.tla) index -> centre -> index is the identity, every point of the region "
+             "lies in the cell of its index and in no other, for unbounded corners, cell sizes and counts (%d of %d obligations, "
+             "reported, not relied on)")
 
 
-def run_stage(ctx, module="C13Core.tla", timeout=300):
+def run_stage(ctx, module="C13Core.tla", timeout=300, obligations=None, claim=None):
+    OBLIGATIONS = obligations or globals()["OBLIGATIONS"]
     exe = shutil.which("apalache-mc")
     info = {"tool": "apalache-mc", "module": module, "obligations": [], "discharged": 0}
     if exe is None:
@@ -35,10 +43,15 @@ def run_stage(ctx, module="C13Core.tla", timeout=300):
         if outcome == "NoError":
             info["discharged"] += 1
         elif outcome == "Error":
-            ctx.violation(f"model:C13Core:{name}", "Apalache found a counterexample to the inductive invariant of spec/C13Core.tla",
+            ctx.violation(f"model:{module[:-4]}:{name}", f"Apalache found a counterexample to an invariant of spec/{module}",
                           {"output_tail": text.strip().split("\n")[-40:]})
         shutil.rmtree(out_dir, ignore_errors=True)
     ctx.notes["apalache"] = info
+    if claim is not None:
+        if info["discharged"] == len(OBLIGATIONS):
+            ctx.assumptions.append(claim % (info["discharged"], len(OBLIGATIONS)))
+        ctx.notes["apalache"] = info
+        return info
     if info["discharged"] == len(OBLIGATIONS):
         ctx.assumptions.append("Apalache: the normal form of the 1-d integer core (spec/C13Core.tla) is an inductive invariant for unbounded "
                                "coordinates, vectors, factors and reference points (2 of 2 obligations, reported, not relied on)")
